@@ -1,4 +1,796 @@
+//! C04 — zero-copy casts are lossless, length-exact and layout-sound.
+//!
+//! Exhaustive enumeration, on the real `palette::cast` code, of
+//!   every ArrayCast / UintCast implementor × component type  (the registry below, cross-checked
+//!   against a textual scan of palette/src at run time)
+//! × every cast form (free functions, std conversions from `impl_array_casts!`, cast traits × owners)
+//! × every buffer length 0..=4N+1 × (vectors) every capacity len..=len+N+1 × sentinel pattern.
+//! Each case is executed once; an erased observation (pointers, lengths, capacities, component
+//! bit patterns, allocator log) is judged by a non-generic oracle.
+mod forms;
+mod kinds;
+mod miri;
+mod scan;
+mod subjects;
+mod track;
+mod uforms;
+
+use forms::{Fal, FormMeta, Kd, Lens};
+use kinds::{Obs, Outcome, Owner, P};
+use palette::blend::PreAlpha;
+use palette::Alpha;
+use pv::{json, Collector, Ctx, Mode, Tier, Value};
+use std::collections::{BTreeMap, BTreeSet};
+use subjects::{alias, Prim, Subject, USubject};
+
+#[global_allocator]
+static GLOBAL: track::Tracking = track::Tracking;
+
+// -----------------------------------------------------------------------------------------
+// registry
+
+type RunFn = fn(&str, &P) -> Option<Obs>;
+
+pub struct TypeInfo {
+    pub name: String,
+    pub family: &'static str,
+    pub class: &'static str,
+    pub item: &'static str,
+    pub n: usize,
+    pub uint: bool,
+    pub sent_bits: fn(usize, u8, u8) -> u128,
+    pub run: RunFn,
+    pub run_traits: Option<RunFn>,
+    pub run_pairs: Option<RunFn>,
+    pub run_pairs_traits: Option<RunFn>,
+    /// size/align of (colour, array-or-uint, component)
+    pub layout: [usize; 6],
+    pub own_into_components: bool,
+    /// comps(build(a)) == a for both sentinel palettes (declared order == into_components order)
+    pub selfcheck: fn() -> Result<(), String>,
+}
+
+fn selfcheck<C: Subject<T, N>, T: Prim, const N: usize>() -> Result<(), String> {
+    for pat in [0u8, 2] {
+        let a: [T; N] = core::array::from_fn(|k| T::sent(k, pat, 0));
+        let back = C::build(a).comps();
+        let x: Vec<u128> = a.iter().map(|v| v.bits()).collect();
+        let y: Vec<u128> = back.iter().map(|v| v.bits()).collect();
+        if x != y {
+            return Err(format!("built from {:x?} in declared field order, into_components() gave {:x?}", x, y));
+        }
+    }
+    Ok(())
+}
+fn selfcheck_u<C: USubject<U>, U: Prim>() -> Result<(), String> {
+    for pat in [0u8, 2] {
+        let u = U::sent(0, pat, 0);
+        if C::build(u).get().bits() != u.bits() {
+            return Err("field read differs from field written".into());
+        }
+    }
+    Ok(())
+}
+
+macro_rules! reg {
+    ($v:ident, $ty:ty, $t:ty, $n:tt, $mode:ident) => {{
+        type Cx = $ty;
+        push_unique(
+            &mut $v,
+            TypeInfo {
+                name: <Cx as Subject<$t, $n>>::label(),
+                family: <Cx as Subject<$t, $n>>::FAMILY,
+                class: <Cx as Subject<$t, $n>>::CLASS,
+                item: <$t as Prim>::NAME,
+                n: $n,
+                uint: false,
+                sent_bits: |i, p, g| <$t as Prim>::sent(i, p, g).bits(),
+                run: |f, p| forms::run_core::<Cx, $t, $n>(f, p),
+                run_traits: reg!(@traits $mode, Cx, $t, $n),
+                run_pairs: Some(with_pairs!($n, pairs_runner, pair_fn, Cx, $t, $n)),
+                run_pairs_traits: reg!(@ptraits $mode, Cx, $t, $n),
+                layout: [
+                    core::mem::size_of::<Cx>(),
+                    core::mem::align_of::<Cx>(),
+                    core::mem::size_of::<[$t; $n]>(),
+                    core::mem::align_of::<[$t; $n]>(),
+                    core::mem::size_of::<$t>(),
+                    core::mem::align_of::<$t>(),
+                ],
+                own_into_components: <Cx as Subject<$t, $n>>::OWN_INTO_COMPONENTS,
+                selfcheck: || selfcheck::<Cx, $t, $n>(),
+            },
+        );
+    }};
+    (@traits core, $C:ty, $t:ty, $n:tt) => { None };
+    (@traits traits, $C:ty, $t:ty, $n:tt) => { Some(|f, p| forms::run_traits::<$C, $t, $n>(f, p)) };
+    (@ptraits core, $C:ty, $t:ty, $n:tt) => { None };
+    (@ptraits traits, $C:ty, $t:ty, $n:tt) => { Some(with_pairs!($n, pairs_runner, pair_trait, $C, $t, $n)) };
+}
+macro_rules! reg_uint {
+    ($v:ident, $ty:ty, $u:ty) => {{
+        type Cx = $ty;
+        push_unique(
+            &mut $v,
+            TypeInfo {
+                name: <Cx as USubject<$u>>::label(),
+                family: <Cx as USubject<$u>>::FAMILY,
+                class: "uint",
+                item: <$u as Prim>::NAME,
+                n: 1,
+                uint: true,
+                sent_bits: |i, p, g| <$u as Prim>::sent(i, p, g).bits(),
+                run: |f, p| uforms::run_uint::<Cx, $u>(f, p),
+                run_traits: None,
+                run_pairs: None,
+                run_pairs_traits: None,
+                layout: [
+                    core::mem::size_of::<Cx>(),
+                    core::mem::align_of::<Cx>(),
+                    core::mem::size_of::<$u>(),
+                    core::mem::align_of::<$u>(),
+                    core::mem::size_of::<$u>(),
+                    core::mem::align_of::<$u>(),
+                ],
+                own_into_components: false,
+                selfcheck: || selfcheck_u::<Cx, $u>(),
+            },
+        );
+    }};
+}
+macro_rules! inst {
+    ($v:ident, $n:tt, $n1:tt, $al:ident; plain [$($t:ty),*]; alpha [$($ta:ty),*]; pre [$($tp:ty),*]) => {
+        $( reg!($v, alias::$al<$t>, $t, $n, core); )*
+        $( reg!($v, Alpha<alias::$al<$ta>, $ta>, $ta, $n1, core); )*
+        $( reg!($v, PreAlpha<alias::$al<$tp>>, $tp, $n1, core); )*
+    };
+}
+
+fn push_unique(v: &mut Vec<TypeInfo>, t: TypeInfo) {
+    if !v.iter().any(|x| x.name == t.name) {
+        v.push(t);
+    }
+}
+
+type F32x4 = wide::f32x4;
+
+pub fn registry() -> Vec<TypeInfo> {
+    let mut v: Vec<TypeInfo> = vec![];
+    // representative subset that also runs every cast trait × owner (registered first)
+    reg!(v, alias::FSrgb<u8>, u8, 3, traits);
+    reg!(v, alias::FSrgb<f32>, f32, 3, traits);
+    reg!(v, Alpha<alias::FSrgb<u8>, u8>, u8, 4, traits);
+    reg!(v, alias::FHsv<f32>, f32, 3, traits);
+    reg!(v, Alpha<alias::FLab<f64>, f64>, f64, 4, traits);
+    reg!(v, alias::FLuma<u16>, u16, 1, traits);
+    reg!(v, Alpha<alias::FLuma<u8>, u8>, u8, 2, traits);
+    reg!(v, PreAlpha<alias::FLinSrgb<f32>>, f32, 4, traits);
+    reg!(v, alias::PackedRgba<u8, 4>, u8, 4, traits);
+    reg!(v, alias::FCam16Jch<f32>, f32, 3, traits);
+    reg!(v, alias::FOklch<f64>, f64, 3, traits);
+    reg!(v, Alpha<Alpha<alias::FSrgb<u8>, u8>, u8>, u8, 5, traits);
+    // every implementor × component types
+    inst!(v, 3, 4, FSrgb; plain [u8, u16, u32, f32, f64]; alpha [u8, u16, u32, f32, f64]; pre [f32, f64]);
+    inst!(v, 3, 4, FLinSrgb; plain [u8, u16, u32, f32, f64]; alpha [u8, u16, u32, f32, f64]; pre [f32, f64]);
+    inst!(v, 1, 2, FLuma; plain [u8, u16, u32, f32, f64]; alpha [u8, u16, u32, f32, f64]; pre [f32, f64]);
+    inst!(v, 3, 4, FXyz; plain [f32, f64]; alpha [f32, f64]; pre [f32, f64]);
+    inst!(v, 3, 4, FYxy; plain [f32, f64]; alpha [f32]; pre [f32, f64]);
+    inst!(v, 3, 4, FLab; plain [f32, f64]; alpha [f32, f64]; pre [f32, f64]);
+    inst!(v, 3, 4, FLch; plain [f32, f64]; alpha [f32]; pre []);
+    inst!(v, 3, 4, FLuv; plain [f32, f64]; alpha [f32]; pre [f32, f64]);
+    inst!(v, 3, 4, FLchuv; plain [f32, f64]; alpha [f32]; pre []);
+    inst!(v, 3, 4, FHsl; plain [u8, f32, f64]; alpha [f32]; pre []);
+    inst!(v, 3, 4, FHsv; plain [u8, f32, f64]; alpha [u8, f32, f64]; pre []);
+    inst!(v, 3, 4, FHwb; plain [u8, f32, f64]; alpha [f32]; pre []);
+    inst!(v, 3, 4, FHsluv; plain [f32, f64]; alpha [f32]; pre []);
+    inst!(v, 3, 4, FOklab; plain [f32, f64]; alpha [f32]; pre [f32, f64]);
+    inst!(v, 3, 4, FOklch; plain [f32, f64]; alpha [f32]; pre []);
+    inst!(v, 3, 4, FOkhsl; plain [f32, f64]; alpha [f32]; pre []);
+    inst!(v, 3, 4, FOkhsv; plain [f32, f64]; alpha [f32]; pre []);
+    inst!(v, 3, 4, FOkhwb; plain [f32, f64]; alpha [f32]; pre []);
+    inst!(v, 3, 4, FLms; plain [f32, f64]; alpha [f32]; pre [f32, f64]);
+    inst!(v, 3, 4, FCam16Jch; plain [f32, f64]; alpha [f32]; pre []);
+    inst!(v, 3, 4, FCam16Jmh; plain [f32, f64]; alpha [f32]; pre []);
+    inst!(v, 3, 4, FCam16Jsh; plain [f32, f64]; alpha [f32]; pre []);
+    inst!(v, 3, 4, FCam16Qch; plain [f32, f64]; alpha [f32]; pre []);
+    inst!(v, 3, 4, FCam16Qmh; plain [f32, f64]; alpha [f32]; pre []);
+    inst!(v, 3, 4, FCam16Qsh; plain [f32, f64]; alpha [f32]; pre []);
+    inst!(v, 3, 4, FCam16UcsJmh; plain [f32, f64]; alpha [f32]; pre []);
+    inst!(v, 3, 4, FCam16UcsJab; plain [f32, f64]; alpha [f32]; pre [f32, f64]);
+    // nested wrappers, Packed arrays, a SIMD component type (16-byte alignment)
+    reg!(v, Alpha<PreAlpha<alias::FLinSrgb<f32>>, f32>, f32, 5, core);
+    reg!(v, alias::PackedAbgr<u8, 4>, u8, 4, core);
+    reg!(v, alias::PackedRgba<u8, 3>, u8, 3, core);
+    reg!(v, alias::PackedRgba<u8, 1>, u8, 1, core);
+    reg!(v, alias::PackedRgba<u16, 4>, u16, 4, core);
+    reg!(v, alias::PackedRgba<u32, 2>, u32, 2, core);
+    reg!(v, alias::PackedRgba<f32, 3>, f32, 3, core);
+    reg!(v, alias::PackedRgba<f64, 5>, f64, 5, core);
+    reg!(v, alias::FSrgb<F32x4>, F32x4, 3, core);
+    reg!(v, Alpha<alias::FSrgb<F32x4>, F32x4>, F32x4, 4, core);
+    reg!(v, PreAlpha<alias::FLinSrgb<F32x4>>, F32x4, 4, core);
+    // UintCast
+    reg_uint!(v, alias::LumaU<u8>, u8);
+    reg_uint!(v, alias::LumaU<u16>, u16);
+    reg_uint!(v, alias::LumaU<u32>, u32);
+    reg_uint!(v, alias::LumaU<u64>, u64);
+    reg_uint!(v, alias::LumaU<u128>, u128);
+    reg_uint!(v, alias::PackedU<u8>, u8);
+    reg_uint!(v, alias::PackedU<u16>, u16);
+    reg_uint!(v, alias::PackedU<u32>, u32);
+    reg_uint!(v, alias::PackedU<u64>, u64);
+    reg_uint!(v, alias::PackedU<u128>, u128);
+    v
+}
+
+// -----------------------------------------------------------------------------------------
+// enumeration of the shapes of one (type, form)
+
+pub struct Bounds {
+    /// buffer lengths 0..=len_mul·N+len_add
+    pub len_mul: usize,
+    pub len_add: usize,
+    /// capacities len..=len+cap_mul·N+cap_add
+    pub cap_mul: usize,
+    pub cap_add: usize,
+    pub pats_vec: &'static [u8],
+    pub pats: &'static [u8],
+}
+pub const QUICK: Bounds = Bounds { len_mul: 4, len_add: 1, cap_mul: 1, cap_add: 1, pats_vec: &[0, 1, 2, 3], pats: &[0, 2] };
+pub const THOROUGH: Bounds = Bounds { len_mul: 6, len_add: 2, cap_mul: 2, cap_add: 2, pats_vec: &[0, 1, 2, 3], pats: &[0, 2] };
+pub const MIRI: Bounds = Bounds { len_mul: 1, len_add: 2, cap_mul: 1, cap_add: 0, pats_vec: &[0, 1], pats: &[0] };
+
+pub fn shapes(t: &TypeInfo, fm: &FormMeta, owner: Owner, b: &Bounds, mut f: impl FnMut(P)) {
+    let n = t.n;
+    let vec_owner = owner == Owner::Vec;
+    let pats = if vec_owner { b.pats_vec } else { b.pats };
+    let lens: Vec<usize> = match (fm.lens, owner) {
+        (Lens::One, _) => vec![1],
+        (Lens::K3, _) => (0..=3).collect(),
+        (Lens::Pairs, _) => vec![],
+        (Lens::Exact1, _) => (0..=2 * n + 1).collect(),
+        (Lens::Buf, Owner::Value) => (0..=3).collect(),
+        (Lens::Buf, Owner::Array) => (0..=if fm.ik == Kd::T && !t.uint { 9 } else { 3 }).collect(),
+        (Lens::Buf, _) => (0..=b.len_mul * n + b.len_add).collect(),
+    };
+    if fm.lens == Lens::Pairs {
+        for &(k, m) in forms::pairs_for(n) {
+            for &pat in b.pats {
+                f(P { len: k, cap: m, pat, owner });
+            }
+        }
+        return;
+    }
+    for len in lens {
+        let caps: Vec<usize> = if vec_owner { (len..=len + b.cap_mul * n + b.cap_add).collect() } else { vec![len] };
+        for cap in caps {
+            for &pat in pats {
+                f(P { len, cap, pat, owner });
+            }
+        }
+    }
+}
+
+fn run_form(t: &TypeInfo, table: u8, fm: &FormMeta, p: &P) -> Option<Obs> {
+    match (table, fm.lens) {
+        (0, Lens::Pairs) => t.run_pairs.and_then(|r| r(fm.name, p)),
+        (0, _) => (t.run)(fm.name, p),
+        (1, _) => t.run_traits.and_then(|r| r(fm.name, p)),
+        (2, _) => t.run_pairs_traits.and_then(|r| r(fm.name, p)),
+        _ => None,
+    }
+}
+
+/// the form tables that apply to a type: (table id, forms)
+pub fn tables(t: &TypeInfo) -> Vec<(u8, &'static [FormMeta])> {
+    if t.uint {
+        vec![(0, uforms::UINT_FORMS)]
+    } else {
+        let mut v: Vec<(u8, &'static [FormMeta])> = vec![(0, forms::CORE_FORMS)];
+        if t.run_traits.is_some() {
+            v.push((1, forms::TRAIT_FORMS));
+            v.push((2, forms::TRAIT_PAIR_FORMS));
+        }
+        v
+    }
+}
+
+fn sub_of(t: &TypeInfo, fm: &FormMeta) -> String {
+    let g = fm.name.split('/').next().unwrap_or("fn");
+    if t.uint {
+        format!("uint-{g}")
+    } else {
+        g.to_string()
+    }
+}
+
+// -----------------------------------------------------------------------------------------
+// the oracle
+
+pub struct Fail {
+    pub kind: &'static str,
+    pub detail: String,
+}
+
+pub struct Verdict {
+    pub class: &'static str,
+    pub accept: bool,
+    pub exp_len: usize,
+    pub exp_cap: usize,
+    pub fails: Vec<Fail>,
+}
+
+fn stream(t: &TypeInfo, count: usize, pat: u8, gen: u8) -> Vec<u128> {
+    (0..count).map(|i| (t.sent_bits)(i, pat, gen)).collect()
+}
+
+fn hexs(v: &[u128]) -> Vec<String> {
+    v.iter().map(|x| format!("{x:#x}")).collect()
+}
+
+pub fn judge(t: &TypeInfo, fm: &FormMeta, p: &P, o: &Obs) -> Verdict {
+    use track::Ev;
+    let mut fails: Vec<Fail> = vec![];
+    let mut fail = |kind: &'static str, detail: String| fails.push(Fail { kind, detail });
+    let total = o.in_len * o.in_per;
+    let cap_total = o.in_cap * o.in_per;
+    // components per accepted output unit: the colour's N whenever a colour is involved
+    let div = if fm.ik == Kd::T && fm.ok == Kd::T { t.n } else { o.out_per };
+    let len_bad = total % div != 0;
+    let cap_bad = o.has_cap && cap_total % div != 0;
+    let accept = match fm.lens {
+        Lens::Pairs => p.len * t.n == p.cap,
+        Lens::Exact1 => total == o.out_per,
+        _ => !len_bad && !cap_bad,
+    };
+    let exp_len = total / o.out_per;
+    let exp_cap = cap_total / o.out_per;
+    let class: &'static str = match fm.lens {
+        Lens::One => "single",
+        Lens::Pairs => {
+            if accept {
+                "array-length-matches"
+            } else {
+                "array-length-mismatch"
+            }
+        }
+        Lens::K3 => "by-value-array",
+        Lens::Exact1 => {
+            if accept {
+                "len==N"
+            } else {
+                "len!=N"
+            }
+        }
+        Lens::Buf => {
+            if p.owner == Owner::Value {
+                "by-value-array"
+            } else if total == 0 && (!o.has_cap || cap_total == 0) {
+                "empty"
+            } else if len_bad {
+                "len-not-multiple"
+            } else if cap_bad {
+                "cap-not-multiple"
+            } else {
+                "multiple"
+            }
+        }
+    };
+    if fm.fal == Fal::Inf && !accept {
+        fail("machinery", format!("form table marks {} infallible but the oracle rejects len={} cap={}", fm.name, o.in_len, o.in_cap));
+    }
+    let g0 = stream(t, total, p.pat, 0);
+    match &o.outcome {
+        Outcome::Panic(m) => {
+            if accept {
+                fail("unexpected-panic", format!("panicked on an acceptable buffer: {m}"));
+            } else if fm.fal == Fal::Try {
+                fail("panic-instead-of-Err", format!("try_ variant panicked instead of returning Err: {m}"));
+            }
+        }
+        Outcome::Ok { ptr, len, cap, bits } => {
+            if !accept {
+                fail(
+                    if len_bad || fm.lens != Lens::Buf { "accepted-bad-length" } else { "accepted-bad-capacity" },
+                    format!("accepted a buffer of {} components / capacity {} for a {}-component type (got len {len} cap {cap})", total, cap_total, t.n),
+                );
+            } else {
+                if o.has_ptr && *ptr != o.in_ptr {
+                    fail("ptr-moved", format!("input at {:#x}, result at {:#x}", o.in_ptr, ptr));
+                }
+                if *len != exp_len {
+                    fail("len-wrong", format!("result length {len}, expected {exp_len}"));
+                }
+                if o.has_cap && *cap != exp_cap {
+                    fail("cap-wrong", format!("result capacity {cap}, expected {exp_cap} (input capacity {})", o.in_cap));
+                }
+                if *bits != g0 {
+                    fail("content-wrong", format!("components read through the result {:?}, expected (declared field order, alpha last) {:?}", hexs(bits), hexs(&g0)));
+                }
+            }
+        }
+        Outcome::Rej { kind, ptr, len, cap, bits } => {
+            if accept {
+                fail("rejected-good-buffer", format!("returned Err({kind}) for len {} cap {}", o.in_len, o.in_cap));
+            } else {
+                let ok_kind = match *kind {
+                    "length" => len_bad,
+                    "capacity" => cap_bad, // when both mismatch either kind describes the buffer
+                    _ => true,
+                };
+                if !ok_kind {
+                    fail("wrong-error-kind", format!("error kind {kind} for len {} cap {} (N={})", o.in_len, o.in_cap, t.n));
+                }
+                if *ptr != o.in_ptr || *len != o.in_len || (o.has_cap && *cap != o.in_cap) || *bits != g0 {
+                    fail(
+                        "rejected-buffer-changed",
+                        format!("handed back ptr {:#x} len {len} cap {cap} {:?}; gave ptr {:#x} len {} cap {} {:?}", ptr, hexs(bits), o.in_ptr, o.in_len, o.in_cap, hexs(&g0)),
+                    );
+                }
+            }
+        }
+    }
+    if let Some(a) = &o.orig_after {
+        if *a != g0 {
+            fail("original-changed", format!("original buffer after a shared-reference cast {:?}, before {:?}", hexs(a), hexs(&g0)));
+        }
+    }
+    if let Some(a) = &o.wt_after {
+        let g1 = stream(t, total, p.pat, 1);
+        if *a != g1 {
+            fail("write-not-visible", format!("wrote {:?} through the cast view, original now reads {:?}", hexs(&g1), hexs(a)));
+        }
+    } else if fm.mutable && matches!(o.outcome, Outcome::Ok { .. }) {
+        fail("machinery", "mutable form without write-through observation".into());
+    }
+    // allocator log
+    if o.ev_overflow || o.ev.len() != 3 {
+        fail("machinery", format!("allocator log unusable (overflow={}, phases={})", o.ev_overflow, o.ev.len()));
+    } else {
+        let panicked = matches!(o.outcome, Outcome::Panic(_));
+        // the live input allocation after the build phase
+        let mut live: Vec<(usize, usize, usize)> = vec![];
+        for e in &o.ev[0] {
+            match *e {
+                Ev::Alloc { ptr, size, align } => live.push((ptr, size, align)),
+                Ev::Dealloc { ptr, .. } => live.retain(|l| l.0 != ptr),
+                Ev::Realloc { ptr, align, new_ptr, new_size, .. } => {
+                    live.retain(|l| l.0 != ptr);
+                    live.push((new_ptr, new_size, align));
+                }
+                _ => {}
+            }
+        }
+        let input_alloc = if o.has_ptr { live.iter().copied().find(|l| l.0 == o.in_ptr) } else { None };
+        if !panicked && !o.ev[1].is_empty() {
+            fail("alloc-during-cast", format!("the cast touched the allocator: {:?}", o.ev[1]));
+        }
+        if !panicked || input_alloc.is_some() {
+            let mut freed = 0;
+            let mut fresh: Vec<(usize, usize, usize)> = vec![];
+            for e in o.ev[1].iter().chain(o.ev[2].iter()) {
+                match *e {
+                    Ev::Dealloc { ptr, size, align } => {
+                        if let Some((ip, is, ia)) = input_alloc {
+                            if ptr == ip {
+                                freed += 1;
+                                if size != is || align != ia {
+                                    fail("dealloc-layout-mismatch", format!("buffer allocated with size {is} align {ia} was freed with size {size} align {align}"));
+                                }
+                                continue;
+                            }
+                        }
+                        fresh.retain(|l| l.0 != ptr);
+                    }
+                    Ev::Alloc { ptr, size, align } => fresh.push((ptr, size, align)),
+                    Ev::Realloc { ptr, new_ptr, new_size, align, .. } => {
+                        if input_alloc.map(|l| l.0) == Some(ptr) && !panicked {
+                            fail("realloc-of-buffer", format!("the buffer was reallocated to {new_ptr:#x} size {new_size}"));
+                        }
+                        fresh.retain(|l| l.0 != ptr);
+                        fresh.push((new_ptr, new_size, align));
+                    }
+                    _ => {}
+                }
+            }
+            if input_alloc.is_some() && freed != 1 {
+                fail(if freed == 0 { "leak" } else { "double-free" }, format!("the input allocation was freed {freed} times after the cast"));
+            }
+            if !panicked && !fresh.is_empty() {
+                fail("leak", format!("allocations made during/after the cast and never freed: {:?}", fresh));
+            }
+        }
+    }
+    Verdict { class, accept, exp_len, exp_cap, fails }
+}
+
+fn obs_json(o: &Obs) -> Value {
+    let out = match &o.outcome {
+        Outcome::Ok { ptr, len, cap, bits } => json!({"result": "Ok", "ptr": format!("{ptr:#x}"), "len": len, "cap": cap, "components": hexs(bits)}),
+        Outcome::Rej { kind, ptr, len, cap, bits } => json!({"result": "Err", "kind": kind, "ptr": format!("{ptr:#x}"), "len": len, "cap": cap, "components": hexs(bits)}),
+        Outcome::Panic(m) => json!({"result": "panic", "message": m}),
+    };
+    json!({"input": {"ptr": format!("{:#x}", o.in_ptr), "len": o.in_len, "cap": o.in_cap, "components_per_element": o.in_per}, "outcome": out,
+           "written_through_view_then_original_reads": o.wt_after.as_ref().map(|v| hexs(v))})
+}
+
+fn outcome_hash(fm: &FormMeta, p: &P, o: &Obs) -> u64 {
+    let mut h = pv::fnv(fm.name.as_bytes()) ^ pv::splitmix(p.owner as u64);
+    let (tag, len, cap, bits): (u64, usize, usize, &[u128]) = match &o.outcome {
+        Outcome::Ok { len, cap, bits, .. } => (1, *len, *cap, bits),
+        Outcome::Rej { len, cap, bits, kind, .. } => (2 + kind.len() as u64, *len, *cap, bits),
+        Outcome::Panic(_) => (9, 0, 0, &[]),
+    };
+    h = pv::splitmix(h ^ tag ^ ((len as u64) << 8) ^ ((cap as u64) << 24));
+    for b in bits {
+        h = pv::splitmix(h ^ (*b as u64) ^ ((*b >> 64) as u64));
+    }
+    h
+}
+
+// -----------------------------------------------------------------------------------------
+// raw violations and their aggregation into signatures
+
+pub struct Raw {
+    pub ty: usize,
+    pub form: String, // form name incl. owner
+    pub kind: &'static str,
+    pub class: &'static str,
+    pub case: Value,
+}
+
+fn case_json(t: &TypeInfo, table: u8, fm: &FormMeta, p: &P, o: &Obs, v: &Verdict, f: &Fail) -> Value {
+    json!({
+        "sub": sub_of(t, fm), "type": t.name, "table": table, "form": fm.name, "owner": p.owner.name(), "len": p.len, "cap": p.cap, "pat": p.pat,
+        "kind": f.kind, "input": format!("{} {}@{} len={} cap={} pat={}", t.name, fm.name, p.owner.name(), p.len, p.cap, p.pat),
+        "observed": {"what": f.detail, "obs": obs_json(o)},
+        "expected": {"accept": v.accept, "len": v.exp_len, "cap": v.exp_cap, "same_pointer": o.has_ptr, "class": v.class},
+    })
+}
+
+fn form_key(fm: &FormMeta, owner: Owner) -> String {
+    if fm.owners.len() > 1 || fm.name.starts_with("trait/") {
+        format!("{}@{}", fm.name, owner.name())
+    } else {
+        fm.name.to_string()
+    }
+}
+
+/// One defect = one (or a handful of) signatures: if every type that ran a form fails the same
+/// way the type label is `*`; if every type of a wrapper class does, `<class>:*`; else the type.
+fn aggregate(c: &mut Collector, types: &[TypeInfo], raws: Vec<Raw>, universe: &BTreeMap<String, BTreeSet<usize>>) {
+    let mut groups: BTreeMap<(String, &'static str, &'static str), Vec<Raw>> = BTreeMap::new();
+    for r in raws {
+        groups.entry((r.form.clone(), r.kind, r.class)).or_default().push(r);
+    }
+    for ((form, kind, class), rs) in groups {
+        let failing: BTreeSet<usize> = rs.iter().map(|r| r.ty).collect();
+        let uni = universe.get(&form).cloned().unwrap_or_default();
+        let label_of = |ty: usize| -> String {
+            if uni.len() >= 2 && failing == uni {
+                return "*".into();
+            }
+            let cls = types[ty].class;
+            let uc: BTreeSet<usize> = uni.iter().copied().filter(|i| types[*i].class == cls).collect();
+            let fc: BTreeSet<usize> = failing.iter().copied().filter(|i| types[*i].class == cls).collect();
+            if uc.len() >= 2 && uc == fc {
+                format!("{cls}:*")
+            } else {
+                types[ty].name.clone()
+            }
+        };
+        for r in rs {
+            let sig = format!("C04/{}/{}/{}/{}", form, kind, label_of(r.ty), class);
+            let case = r.case;
+            c.violation(&sig, 1.0, || case);
+        }
+    }
+}
+
+// -----------------------------------------------------------------------------------------
+// running
+
+struct ChunkOut {
+    c: Collector,
+    raws: Vec<Raw>,
+    ran: Vec<String>,
+}
+
+fn explore_type(ctx: &Ctx, ti: usize, t: &TypeInfo, b: &Bounds) -> ChunkOut {
+    let mut c = Collector::new();
+    let mut raws: Vec<Raw> = vec![];
+    let mut ran: Vec<String> = vec![];
+    // layout + oracle self-check, once per instantiation
+    if ctx.wants("layout") {
+        let l = t.layout;
+        let ok = l[0] == l[2] && l[1] == l[3] && l[0] == t.n * l[4] && l[1] == l[5];
+        c.add("layout", 1, 1, 1, 1);
+        c.outcome(pv::fnv(format!("layout{:?}", l).as_bytes()));
+        ran.push("layout".into());
+        if !ok {
+            raws.push(Raw { ty: ti, form: "layout".into(), kind: "size-or-align", class: "single", case: json!({"sub": "layout", "type": t.name, "form": "layout", "kind": "size-or-align",
+                "input": t.name, "observed": {"size_of_color": l[0], "align_of_color": l[1], "size_of_array": l[2], "align_of_array": l[3], "size_of_component": l[4], "align_of_component": l[5]},
+                "expected": "size_of(C) == size_of(Array) == N*size_of(T) and align_of(C) == align_of(Array) == align_of(T)"}) });
+        }
+        if let Err(m) = (t.selfcheck)() {
+            raws.push(Raw { ty: ti, form: "layout".into(), kind: "declared-order-vs-into_components", class: "single",
+                case: json!({"sub": "layout", "type": t.name, "form": "layout", "kind": "declared-order-vs-into_components", "input": t.name, "observed": m, "expected": "into_components() lists the fields in declared order, alpha last"}) });
+        }
+    }
+    for (table, forms) in tables(t) {
+        for fm in forms.iter() {
+            let sub = sub_of(t, fm);
+            if !ctx.wants(&sub) {
+                continue;
+            }
+            for &owner in fm.owners {
+                let key = form_key(fm, owner);
+                let (mut states, mut ops, mut nontrivial) = (0u64, 0u64, 0u64);
+                shapes(t, fm, owner, b, |p| {
+                    let o = match run_form(t, table, fm, &p) {
+                        Some(o) => o,
+                        None => {
+                            eprintln!("MACHINERY-FAILURE: form {} not executable for {} at {:?}", fm.name, t.name, p);
+                            std::process::exit(3);
+                        }
+                    };
+                    let v = judge(t, fm, &p, &o);
+                    states += 1;
+                    ops += o.ops;
+                    if o.in_len > 0 {
+                        nontrivial += 1;
+                    }
+                    c.outcome(outcome_hash(fm, &p, &o));
+                    let skey = pv::splitmix(ctx.seed ^ pv::fnv(t.name.as_bytes()) ^ pv::fnv(key.as_bytes()) ^ ((p.len as u64) << 32) ^ ((p.cap as u64) << 16) ^ p.pat as u64);
+                    c.sample(skey, || json!({"sub": sub, "type": t.name, "form": key, "len": p.len, "cap_requested": p.cap, "pat": p.pat, "class": v.class, "accept_expected": v.accept, "obs": obs_json(&o)}));
+                    for f in &v.fails {
+                        if f.kind == "machinery" {
+                            eprintln!("MACHINERY-FAILURE: {} {} {:?}: {}", t.name, fm.name, p, f.detail);
+                            std::process::exit(3);
+                        }
+                        raws.push(Raw { ty: ti, form: key.clone(), kind: f.kind, class: v.class, case: case_json(t, table, fm, &p, &o, &v, f) });
+                    }
+                });
+                if states > 0 {
+                    ran.push(key);
+                }
+                c.add(&sub, states, ops, states, nontrivial);
+            }
+        }
+    }
+    ChunkOut { c, raws, ran }
+}
+
+fn find_form(t: &TypeInfo, table: u8, name: &str) -> Option<&'static FormMeta> {
+    tables(t).into_iter().find(|(id, _)| *id == table).and_then(|(_, fs)| fs.iter().find(|f| f.name == name))
+}
+
+fn replay(c: &mut Collector, rep: &Value) {
+    let case = &rep["case"];
+    let types = registry();
+    if case["sub"] == "miri" {
+        miri::replay(c, rep);
+        return;
+    }
+    let tname = case["type"].as_str().unwrap_or("");
+    let Some((ti, t)) = types.iter().enumerate().find(|(_, t)| t.name == tname) else {
+        eprintln!("replay: unknown type {tname}");
+        std::process::exit(3);
+    };
+    let sig = rep["signature"].as_str().unwrap_or("").to_string();
+    if case["form"] == "layout" {
+        let ctx = Ctx::from_args("C04").0;
+        let out = explore_type_layout_only(&ctx, ti, t);
+        for r in out {
+            println!("observed: {}", pv::report::compact(&r.case["observed"]));
+            let s = if sig.contains(r.kind) { sig.clone() } else { format!("C04/layout/{}/{}/single", r.kind, t.name) };
+            let cs = r.case;
+            c.violation(&s, 1.0, || cs);
+        }
+        return;
+    }
+    let table = case["table"].as_u64().unwrap_or(0) as u8;
+    let fname = case["form"].as_str().unwrap_or("");
+    let Some(fm) = find_form(t, table, fname) else {
+        eprintln!("replay: unknown form {fname}");
+        std::process::exit(3);
+    };
+    let p = P {
+        len: case["len"].as_u64().unwrap_or(0) as usize,
+        cap: case["cap"].as_u64().unwrap_or(0) as usize,
+        pat: case["pat"].as_u64().unwrap_or(0) as u8,
+        owner: Owner::parse(case["owner"].as_str().unwrap_or("slice")).unwrap_or(Owner::Slice),
+    };
+    let Some(o) = run_form(t, table, fm, &p) else {
+        eprintln!("replay: shape not executable");
+        std::process::exit(3);
+    };
+    let v = judge(t, fm, &p, &o);
+    println!("case: {} {}@{} len={} cap={} pat={}", t.name, fm.name, p.owner.name(), p.len, p.cap, p.pat);
+    println!("observed: {}", pv::report::compact(&obs_json(&o)));
+    println!("expected: accept={} len={} cap={} same_pointer={} class={}", v.accept, v.exp_len, v.exp_cap, o.has_ptr, v.class);
+    for f in &v.fails {
+        println!("  {}: {}", f.kind, f.detail);
+        let key = form_key(fm, p.owner);
+        let s = if sig.contains(&format!("/{}/", f.kind)) { sig.clone() } else { format!("C04/{}/{}/{}/{}", key, f.kind, t.name, v.class) };
+        let cs = case_json(t, table, fm, &p, &o, &v, f);
+        c.violation(&s, 1.0, || cs);
+    }
+}
+
+fn explore_type_layout_only(ctx: &Ctx, ti: usize, t: &TypeInfo) -> Vec<Raw> {
+    let only = Ctx { id: ctx.id, tier: ctx.tier, seed: ctx.seed, start: ctx.start, root: ctx.root.clone(), only: Some("layout".into()) };
+    explore_type(&only, ti, t, &QUICK).raws
+}
+
 fn main() {
-    eprintln!("C04: check not built yet");
-    std::process::exit(3);
+    // the Miri child must not touch the file system or the argument parser of pv
+    let args: Vec<String> = std::env::args().collect();
+    if args.get(1).map(|s| s.as_str()) == Some("--miri-child") {
+        pv::quiet_panics();
+        std::process::exit(miri::child(&args[2..]));
+    }
+    pv::main_guard(real_main)
+}
+
+fn real_main() -> i32 {
+    let (ctx, mode) = Ctx::from_args("C04");
+    if let Mode::Replay(rep) = mode {
+        let mut c = Collector::new();
+        replay(&mut c, &rep);
+        return ctx.finish_replay(c);
+    }
+    let types = registry();
+    let b = ctx.tier.pick(&QUICK, &THOROUGH);
+    let outs = pv::par::map_chunks(types.len(), |i| explore_type(&ctx, i, &types[i], b));
+    let mut total = Collector::new();
+    let mut raws: Vec<Raw> = vec![];
+    let mut universe: BTreeMap<String, BTreeSet<usize>> = BTreeMap::new();
+    for (i, o) in outs.into_iter().enumerate() {
+        total.merge(o.c);
+        raws.extend(o.raws);
+        for k in o.ran {
+            universe.entry(k).or_default().insert(i);
+        }
+    }
+    aggregate(&mut total, &types, raws, &universe);
+    let lens = format!("every buffer length 0..={}N+{}", b.len_mul, b.len_add);
+    let caps = format!("for vectors every capacity len..=len+{}N+{} (with_capacity and with_capacity(len)+reserve_exact; capacity() read back)", b.cap_mul, b.cap_add);
+    let n_arr = types.iter().filter(|t| !t.uint).count();
+    let n_tr = types.iter().filter(|t| t.run_traits.is_some()).count();
+    let n_u = types.iter().filter(|t| t.uint).count();
+    for (sub, what) in [
+        ("fn", format!("{n_arr} ArrayCast instantiations × all {} free functions of palette::cast (by value, &, &mut, [C;K] K=0..=3, component arrays for literal (K,M) pairs incl. mismatches, slices, boxed slices, vectors, map_*_in_place) × {lens} × {caps} × 2 sentinel palettes", forms::CORE_FORMS.iter().filter(|f| f.name.starts_with("fn/")).count())),
+        ("rt", format!("{n_arr} instantiations × round trips (value, &mut slice, Box<[C]>, Vec<C> through arrays and components; Vec<T> through try_from_component_vec and back) × {lens} × {caps}")),
+        ("std", format!("{n_arr} instantiations × the {} AsRef/AsMut/From/TryFrom/Box conversions generated by impl_array_casts! (single-colour TryFrom<&[T]>: every length 0..=2N+1)", forms::CORE_FORMS.iter().filter(|f| f.name.starts_with("std/")).count())),
+        ("trait", format!("{n_tr} representative instantiations × every cast trait method of the 5 ArrayCast trait files × owners ([_], [_;K] K=0..=3 resp. 0..=9 components, Box<[_]>, Vec<_>, by value) × {lens} × {caps}")),
+        ("uint-fn", format!("{n_u} UintCast instantiations (Luma<S,uN>, Packed<O,uN>, N=8..128) × all free functions × {lens} × {caps}")),
+        ("uint-rt", "UintCast round trips through Box and Vec".to_string()),
+        ("uint-std", "UintCast std conversions (impl_uint_casts_self!/other!, impl_luma_cast_other!)".to_string()),
+        ("uint-trait", "every method of as_uints_traits.rs and from_into_uints_traits.rs × owners".to_string()),
+        ("layout", "size_of/align_of equalities and declared-order == into_components-order, once per instantiation".to_string()),
+    ] {
+        if total.sub.contains_key(sub) {
+            total.exhaustive(sub, true, &what);
+        }
+    }
+    total.note("instantiations", json!(types.iter().map(|t| t.name.clone()).collect::<Vec<_>>()));
+    if ctx.wants("scan") {
+        scan::coverage(&ctx, &mut total, &types);
+    }
+    if ctx.tier == Tier::Thorough && ctx.wants("miri") {
+        miri::parent(&ctx, &mut total);
+    }
+    ctx.finish(
+        total,
+        "model_checking",
+        "a state is one (type instantiation, cast form, owner, buffer length, capacity, sentinel palette); all are enumerated in lexicographic order and each is executed once on the real cast code; the observation (pointer, len, capacity, component bit patterns before/after, writes through the view, allocator log) is compared with an arithmetic oracle (total components preserved; accept iff len — for moved vectors also capacity — is a multiple of N). Non-trivial = the buffer holds at least one element",
+        &[
+            "colours are built field by field in declared order with struct literals and read back with the type's own into_components() (hues via into_inner); both agree on every listed type (checked at start)",
+            "the global allocator of the check binary logs alloc/dealloc/realloc with layouts on the current thread: a cast must not touch the allocator and the buffer must later be freed exactly once with the layout it was allocated with",
+            "Vec::with_capacity / reserve_exact capacities are read back with capacity(), never assumed",
+            "when both length and capacity of a vector are not multiples of N either VecCastErrorKind is accepted; LengthMismatch is required when only the length is bad, CapacityMismatch when only the capacity is",
+            "the single-colour std conversion TryFrom<&[T]> for &C must accept exactly len == N",
+        ],
+    )
 }
